@@ -121,3 +121,59 @@ func init() {
 		runKV(c, plans, kvmc.ScanOracle, multiTable)
 	}})
 }
+
+func init() {
+	core.Register(&core.Check{ID: "C20", Level: "model_checking", Run: func(c *core.Ctx) {
+		burst, keys := 3, 2
+		if !c.Quick() {
+			burst, keys = 4, 3
+		}
+		states, trans, ops := 0, 0, 0
+		allClosed := true
+		var bounds []string
+		for _, mode := range []kvmc.OpKind{kvmc.OpPut, kvmc.OpPutRaw} {
+			for _, idle := range []int64{0, int64(15 * 60 * 1e9)} {
+				cfg := kvmc.Config{TableSize: 128, Keys: keys, Sizes: []int{12, 30}, Kinds: []kvmc.OpKind{mode, kvmc.OpDel}, IdleTimeout: idle, MaxTables: 16}
+				name := "primary(Put)"
+				if mode == kvmc.OpPutRaw {
+					name = "backup(PutRaw)"
+				}
+				s := &kvmc.ChurnSearch{Cfg: cfg, Burst: burst, MaxRounds: 40, CheckAny: kvmc.AccountingOracle, CheckCompacted: kvmc.BoundedOracle, TimeUp: c.TimeUp}
+				s.OnFail = func(path []kvmc.Op, f kvmc.Fail, w *kvmc.World) {
+					key := fmt.Sprintf("C20/%s/idle=%v/%s", name, idle != 0, f.Key)
+					c.Violate(key, fmt.Sprintf("%s tableSize=128 idleTimeout=%d path=[%s]: %s | %s", name, idle, kvmc.PathString(path), f.What, kvmc.Layout(w.St)),
+						kvReplay{128, idle, []string{kvmc.PathString(path)}, path, kvmc.Layout(w.St)})
+				}
+				n := 0
+				s.OnState = func(path []kvmc.Op, w *kvmc.World) {
+					n++
+					if n%17 == 1 {
+						c.Sample(fmt.Sprintf("%s idle=%v: %s", name, idle != 0, kvmc.PathString(path)))
+					}
+				}
+				r := s.Run()
+				states += r.States
+				trans += r.Transitions
+				ops += r.Ops
+				b := fmt.Sprintf("%s idleTimeout=%d keys=%d burst<=%d: %d post-compaction states, %d rounds executed, %d bursts, max %d tables / %d bytes allocated", name, idle, keys, burst, r.States, r.Rounds, r.Transitions, r.MaxTables, r.MaxAlloc)
+				if r.Closed {
+					b += " - CLOSED (no new state: the bounds hold for churn of any length over this alphabet)"
+				} else {
+					b += " - NOT closed: " + r.Capped
+					allClosed = false
+				}
+				bounds = append(bounds, b)
+			}
+		}
+		c.Cov["states"] = states
+		c.Cov["transitions"] = trans
+		c.Cov["evaluations"] = ops
+		c.Cov["distinct_nontrivial"] = states
+		c.Cov["exhaustive"] = allClosed
+		c.Cov["fixpoint_reached"] = allClosed
+		c.Cov["bounds_completed"] = bounds
+		c.Cov["traces_validated_against_impl"] = trans
+		c.Cov["rule"] = "fixpoint search on the real KVStore: a state is a post-compaction layout in canonical form; a transition is a burst of 1..burst operations from {Put or PutRaw (k,size), Delete(k)} followed by Compaction() until done; accounting is checked after every burst, the bounds (garbage below threshold on every live table, tables <= live keys + 2, recycled tables released with a zero idle timeout) on every post-compaction state; the search ends when no burst leads to a new state"
+		c.Assumef("values are abstracted to two sizes and keys to %d; the canonical form keeps table layout, gaps in numbering and per-key version order (see kvmc.Canon)", keys)
+	}})
+}
